@@ -212,7 +212,7 @@ def split_monitors(line):
         toks = seg.split(",")
         m = [t for t in toks if t.startswith("!!")]
         rest = [t for t in toks if not t.startswith("!!")]
-        mons += [re.sub(r"[:=]\d+$", "", t[2:]) for t in m]
+        mons += [re.sub(r"([:=]\d+|:[A-Za-z])$", "", t[2:]) for t in m]
         if rest:
             out.append(",".join(rest))
     return " | ".join(out), mons
@@ -281,7 +281,11 @@ class StreamPart:
             cons_hist[ck] = cons_hist.get(ck, 0) + 1
             trace, mons = split_monitors(a)
             ub = any(m.startswith(UB_MONITORS) for m in mons)
+            # object-lifetime monitors are attributed to take_until when the pipeline contains one (DESIGN §8 #6), so that
+            # a known finding there cannot mask a lifetime defect of another adaptor
+            tu = " (pipeline with take_until)" if ("(tu " in parts[2] or "(situ " in parts[2]) else ""
             for m in primary_monitors(mons):
+                m = m + (tu if m.startswith(("op-", "leak")) else "")
                 verdict.add(f"{self.name}: monitor {m}", f"implementation monitor fired: {a}",
                             dict(stream=self.name, case=l, impl=a, model=b), found_input=True)
             if "!!fuel" in b or b.startswith("bad-case"):
